@@ -275,6 +275,11 @@ impl LinkRx {
         (self.router_rx.len(), self.router_rx.is_disconnected())
     }
 
+    /// Copy of what currently sits in the shared outgoing buffer.
+    pub fn verif_peek(&self) -> Vec<Notification> {
+        self.send_buffer.lock().iter().cloned().collect()
+    }
+
     /// What is left in the shared outgoing buffer (used after a link ended).
     pub fn verif_leftover(&self) -> VecDeque<Notification> {
         mem::take(&mut *self.send_buffer.lock())
